@@ -141,6 +141,7 @@ type varInfo struct {
 	lean  string
 	typ   gtype
 	depth int
+	seq   int // position in the order of declaration within the function (declare)
 }
 
 type fnCtx struct {
@@ -152,6 +153,7 @@ type fnCtx struct {
 	errSites  int
 	errSiteOf map[token.Pos]int // fmt.Errorf / errors.New call -> number (source order)
 	tmp       int
+	nvars     int // number of variables declared so far (varInfo.seq)
 	scopes    []map[string]*varInfo
 	used      map[string]bool // lean names used in this function
 	// second part (slices, panics, loops); see code_slice.go
@@ -215,6 +217,10 @@ type codegen struct {
 	errVarUse       []string
 	// code_parse.go: the topic being translated assumes that pointer parameters are not nil
 	ptrNonNil bool
+	// code_topics.go (promoted3): a slice parameter only as the only slice the function can reach
+	strictSliceParams bool
+	// code_part4.go (topic.declOrder): state and join tuples in declaration order
+	declOrder bool
 }
 
 func (c *codegen) pos(n ast.Node) string {
@@ -676,7 +682,8 @@ func (c *codegen) declare(name string, t gtype) *varInfo {
 		}
 	}
 	c.cur.used[lean] = true
-	v := &varInfo{lean: lean, typ: t, depth: len(c.cur.scopes) - 1}
+	c.cur.nvars++
+	v := &varInfo{lean: lean, typ: t, depth: len(c.cur.scopes) - 1, seq: c.cur.nvars}
 	c.cur.scopes[len(c.cur.scopes)-1][name] = v
 	return v
 }
@@ -866,7 +873,7 @@ func isAtom(s string) bool {
 			}
 		}
 	}
-	if strings.HasPrefix(s, "-") || strings.HasPrefix(s, "¬") {
+	if strings.HasPrefix(s, "-") || strings.HasPrefix(s, "¬") || strings.HasPrefix(s, "~~~") {
 		return false
 	}
 	return true
